@@ -96,6 +96,7 @@ type Term struct {
 	Name string
 	ID   int
 	size int // approx printed size
+	H    [2]uint64 // structural hash (independent of creation order)
 }
 
 type TermCtx struct {
@@ -140,6 +141,23 @@ func (c *TermCtx) mk(op Op, s Sort, args []*Term, val uint64, name string) *Term
 		}
 	}
 	t := &Term{Op: op, S: s, Args: args, Val: val, Name: name, ID: c.nextID, size: sz}
+	h1 := uint64(14695981039346656037) ^ uint64(op)<<8 ^ uint64(s.K)<<16 ^ uint64(s.W)<<24
+	h2 := uint64(0x9E3779B97F4A7C15) + uint64(op)*31 + uint64(s.K)*131 + uint64(s.W)*1031
+	mix := func(v uint64) {
+		h1 = (h1 ^ v) * 1099511628211
+		h1 ^= h1 >> 29
+		h2 = (h2 + v*0xff51afd7ed558ccd) * 0xc4ceb9fe1a85ec53
+		h2 ^= h2 >> 33
+	}
+	mix(val)
+	for i := 0; i < len(name); i++ {
+		mix(uint64(name[i]) + 0x100)
+	}
+	for _, a := range args {
+		mix(a.H[0])
+		mix(a.H[1] ^ 0x5555)
+	}
+	t.H = [2]uint64{h1, h2}
 	c.tab[k] = t
 	return t
 }
